@@ -6,7 +6,7 @@ RULE = ("(a) exhaustive: every valid candle shape (O,H,L,C) on the half-tick lat
         "highs = H, min of lows = L, and for a price other than O the parts meet at the price. (b) bounded-exhaustive in-minute "
         "ordering on a real session state: every candle shape on {100..104} (open = previous close), 2-3 resting orders with "
         "prices on {99..105} (entry ladder on a flat position, or take-profit/stop ladder around an open long or short), "
-        "reaction exits placed by on_open_position / on_reduced_position at -2..+2 ticks from the fill price; the minute is "
+        "reaction exits placed by on_open_position / on_reduced_position at -2..+2 ticks from the fill price (or 1-2 re-entry orders placed by on_close_position after a full-size exit); the minute is "
         "run through backtest_mode._simulate_price_change_effect and the observed sequence of fills is judged step by step "
         "against the continuous path (O,L,H,C for close >= open, else O,H,L,C): the order filled next must be one the path "
         "reaches first among the orders active at that moment (ties admit any of them), an order created in reaction to a "
@@ -189,6 +189,24 @@ def lattice_case(case):
             except Exception:  # noqa - e.g. "doesn't seem to be for reducing": not placed
                 pass
 
+        def on_close_position(self, order):
+            # re-entry the moment the position is closed: 1-2 fresh entry orders around the fill price
+            cr = case.get('close_react')
+            if cr is None or getattr(self, '_reentered', False):
+                return
+            self._reentered = True
+            off, m = cr
+            cur = self.position.current_price
+            for j in range(m):
+                p = cur + off + (j if off > 0 else -j)
+                try:
+                    if p > cur:
+                        self.broker.start_profit_at('buy', 1.0, p)
+                    elif p < cur:
+                        self.broker.buy_at(1.0, p)
+                except Exception:  # noqa
+                    pass
+
         def on_open_position(self, order):
             self._react()
 
@@ -246,6 +264,13 @@ def lattice_space(families=('entry', 'exit-long', 'exit-short')):
                     for fr in fr_sets:
                         for react in (None, -2, -1, 1, 2):
                             yield dict(o=o, h=h, l=l, c=c, family=fam, orders=list(zip(ps, fr)), react_off=react)
+            if fam != 'entry':
+                # exits for the whole position (1-2 of them) and a strategy that re-enters from on_close_position
+                for n in (1, 2):
+                    for ps in itertools.combinations_with_replacement(prices, n):
+                        for off in (-2, -1, 1, 2):
+                            for m in (1, 2):
+                                yield dict(o=o, h=h, l=l, c=c, family=fam, orders=[(p_, 1.0) for p_ in ps], react_off=None, close_react=[off, m])
 
 
 # ---------------------------------------------------------------------------------------------
@@ -325,9 +350,9 @@ def run_shard(acc, shard, nshards, seed, tier):
         acc.case(key=('lat', idx), nontrivial=nt, classes=['lattice:' + case['family']] + ['lattice:' + f for f in st['flags']], sub='lattice-in-minute-ordering',
                  sample=dict(kind='lattice', **case) if (nt and cnt % 400 == 1) else None)
         for sig, msg in vios:
-            acc.violation(sig, msg, dict(kind='lattice', **case), size=len(case['orders']) * 10 + (0 if case['react_off'] is None else 5))
+            acc.violation(sig, msg, dict(kind='lattice', **case), size=len(case['orders']) * 10 + (0 if case['react_off'] is None else 5) + (0 if case.get('close_react') is None else 7))
     if stride == 1:
-        acc.mark_exhaustive('lattice-in-minute-ordering', 'all candle shapes on {100..104}^4 x 2-3 order prices on {99..105} x 3 families x reaction offsets {none,-2,-1,1,2}')
+        acc.mark_exhaustive('lattice-in-minute-ordering', 'all candle shapes on {100..104}^4 x 2-3 order prices on {99..105} x 3 families x reaction offsets {none,-2,-1,1,2}; plus 1-2 full-size exits with 1-2 re-entry orders placed by on_close_position at -2..+2')
     # (c) sessions, step simulator
     sess = sessions.session(minutes=(60, 160) if tier == 'quick' else (60, 300), fast=(False,), max_data=0, warmup=(False,), tfs=('1m', '3m', '5m'),
                             program=dict(busy=True))
